@@ -33,6 +33,12 @@ RemoteSatisfied(u, s) ==
    rs # {} /\ s.owner \in KnownIds(u) /\ s.got # "nil"
    /\ LET r == CHOOSE x \in rs : TRUE IN IsUnserved(TargetFile(FileOfId(u, s.owner), r))
 
+(* what the loader delivers comes from the locations it was entitled to read: a site resolved to an object that was written in a file    *)
+(* outside the read closure shows that some OTHER file was read under the name of an allowed location (the reader's own business:       *)
+(* ReadFromFile, which the instrumented reader delegates to, and the default reader)                                                    *)
+SlotIds(u) == {u.slots[i].c.id : i \in {i \in DOMAIN u.slots : IsConcrete(u.slots[i].c)}}
+ForeignContent(u, s) == s.got \in SlotIds(u) /\ FileOfId(u, s.got) \notin AllowedReads(u)
+
 Failed(line) ==
    LET u == line.c.u
        reads == {line.reads[i] : i \in DOMAIN line.reads}
@@ -43,6 +49,8 @@ Failed(line) ==
    \cup (IF line.c.allow /\ ~(reads \subseteq allowed) THEN {"reads_only_ref_derived_locations"} ELSE {})
    \cup (IF ~line.c.allow /\ line.load = "ok" /\ \E i \in DOMAIN line.sites : Followed(u, line.sites[i])
          THEN {"external_ref_never_followed_when_disallowed"} ELSE {})
+   \cup (IF line.load = "ok" /\ \E i \in DOMAIN line.sites : ForeignContent(u, line.sites[i])
+         THEN {"content_only_from_ref_derived_locations"} ELSE {})
    \cup (IF line.load = "ok" /\ \E i \in DOMAIN line.sites : RemoteSatisfied(u, line.sites[i])
          THEN {"location_on_an_unserved_host_never_satisfied"} ELSE {})
 
